@@ -23,7 +23,7 @@ extern "C" const char* __asan_default_options()
 {
     return "abort_on_error=1:detect_leaks=0:allocator_may_return_null=1:handle_abort=0:"
            "detect_stack_use_after_return=0:max_malloc_fill_size=0:malloc_context_size=8:"
-           "detect_container_overflow=1:print_summary=1:symbolize=1:max_allocation_size_mb=4096:alloc_dealloc_mismatch=0";
+           "detect_container_overflow=1:print_summary=1:symbolize=1:max_allocation_size_mb=256:alloc_dealloc_mismatch=0";
 }
 extern "C" const char* __ubsan_default_options()
 {
@@ -190,6 +190,7 @@ const char* build_variant()
 #endif
 }
 
+std::string g_tier = "quick";
 int g_substep_timeout_s = 20;
 void Sub::at(int64_t k)
 {
@@ -305,6 +306,7 @@ struct Shared
     std::atomic<uint64_t> next;
     std::atomic<int64_t> current[64];
     std::atomic<int64_t> sub[64];
+    char label[64][1024];
 };
 
 static void worker_main(
@@ -349,6 +351,8 @@ static void worker_main(
         Emitter em(ofd, i);
         Sub sub;
         sub.slot = &sh->sub[w];
+        sub.label_buf = sh->label[w];
+        sh->label[w][0] = 0;
         try
         {
             fn(i, from, em, sub);
@@ -433,6 +437,8 @@ std::vector<CaseResult> run_pool_sub(
                 sc.kind = tmp.crash_kind;
                 sc.frame = tmp.crash_frame;
                 sc.head = tmp.crash_head;
+                sh->label[w][1023] = 0;
+                sc.label = sh->label[w];
                 res[(size_t)cur].subcrashes.push_back(sc);
                 sh->current[w].store(-1);
                 spawn(w, cur, substep + 1);
@@ -571,6 +577,7 @@ int Reporter::finish()
         Json j = Json::object();
         j["property"] = property_;
         j["variant"] = variant_;
+        j["tier"] = g_tier;
         j["key"] = v.key;
         j["what"] = v.what;
         j["case"] = v.case_id;
